@@ -520,3 +520,46 @@ def r7(R):
                     '(lookups, length, iteration, min/maxKey and save/load '
                     'go wrong)' % (name, ast.unparse(op.stmt.value)[:40]))
     R.require(n >= 2, 'fsIndex no longer stores buckets')
+
+
+# ------------------------------------------------------------------ C19.R7
+@rule('C19.R7', 'when a bounded min/max query finds nothing under its own '
+      'prefix it goes on with the neighbouring prefix\'s EXTREME key: the '
+      'smallest suffix (00 00) going up, the largest (ff ff) going down '
+      '(sibling symmetry of minKey and maxKey)', min_instances=2)
+def r7(R):
+    cls = R.prog.cls('ZODB.fsIndex.fsIndex')
+    want = {'minKey': b'\x00\x00', 'maxKey': b'\xff\xff'}
+    n = 0
+    for meth, suffix in want.items():
+        f = R.method(cls, meth)
+        n += 1
+        R.instance('fsIndex.%s fall-through' % meth)
+        for c in walk_local(f.node):
+            if isinstance(c, ast.Call) and isinstance(
+                    c.func, ast.Attribute) and isinstance(
+                        c.func.value, ast.Name) and \
+                    c.func.value.id == 'self' and c.func.attr in want and \
+                    c.args:
+                # a recursive query with a bound built as prefix + suffix
+                a = c.args[0]
+                consts = [x.value for x in ast.walk(a) if isinstance(
+                    x, ast.Constant) and isinstance(x.value, bytes)]
+                ok = c.func.attr == meth and (
+                    not consts or any(v.endswith(want[meth]) and
+                                      len(v) >= 2 for v in consts))
+                if not ok:
+                    R.violation(
+                        (f.module.relpath, f.qualname,
+                         ' '.join(ast.unparse(c).split()), c.lineno),
+                        'fsIndex.%s goes on under the neighbouring prefix '
+                        'with the bound `%s`: %s needs that prefix\'s %s '
+                        'suffix (%r) -- with any other, keys of the '
+                        'neighbouring bucket are left out and a far smaller '
+                        'key (or ValueError) is the answer' % (
+                            meth, ' '.join(ast.unparse(a).split()), meth,
+                            'smallest' if meth == 'minKey' else 'largest',
+                            want[meth]),
+                        key='neighbouring prefix asked with the wrong '
+                            'extreme')
+    R.require(n >= 2, 'minKey/maxKey not found')
